@@ -553,6 +553,40 @@ theorem requestedAttributeOk_cases {ctx : Ctx} {r : Request} {p : Presentation} 
     exact Or.inl (List.any_eq_true.mp hany)
   · exact Or.inr (by simpa using h)
 
+/-! ## registries -/
+
+theorem findList_some {ls : List StatusListInfo} {rid : String} {ts : Nat} {l : StatusListInfo}
+    (h : findList ls rid ts = some l) : l ∈ ls ∧ l.regId = some rid ∧ l.ts = some ts := by
+  unfold findList at h
+  have hm := List.mem_of_find?_eq_some h
+  have hp := List.find?_some h
+  simp only [Bool.and_eq_true, beq_iff_eq] at hp
+  exact ⟨List.mem_reverse.mp hm, hp.1, hp.2⟩
+
+/-- `get_revocation_registry` with both registry id and timestamp present -/
+theorem revocationRegistry_some_some {ctx : Ctx} {sid cdid rid : String} {ts : Nat}
+    {regKey acc : Option Nat}
+    (h : revocationRegistry ctx ⟨sid, cdid, some rid, some ts⟩ = some (regKey, acc)) :
+    ∃ defs ls d l, ctx.revRegDefs = some defs ∧ ctx.lists = some ls ∧ defs.lookup rid = some d ∧
+      findList ls rid ts = some l ∧ regKey = some d.regKey ∧ acc = l.acc := by
+  unfold revocationRegistry at h
+  simp only at h
+  split at h
+  · rename_i defs ls hd hl
+    split at h
+    · rename_i d l hdl hfl
+      simp only [Option.some.injEq, Prod.mk.injEq] at h
+      exact ⟨defs, ls, d, l, hd, hl, hdl, hfl, h.1.symm, h.2.symm⟩
+    · cases h
+  · cases h
+
+theorem listsOk_mem {ctx : Ctx} (h : listsOk ctx = true) {ls : List StatusListInfo}
+    (hls : ctx.lists = some ls) {l : StatusListInfo} (hl : l ∈ ls) : l.acc.isSome = true := by
+  unfold listsOk at h
+  rw [hls] at h
+  simp only [List.all_eq_true, Bool.and_eq_true] at h
+  exact (h l hl).2
+
 /-! ## a small accepted presentation (non-vacuity witness) -/
 
 namespace Demo
@@ -585,5 +619,62 @@ def pres : Presentation :=
     agg := { nonce := "1", bound := [(5, false)], intact := true } }
 
 end Demo
+
+/- F3 witness: request-wide interval, revocable definition, the presentation names registry `rr`
+and the timestamp of a supplied list inside the interval, but the sub-proof has **no**
+non-revocation part (the credential — index 4 of the registry with key 9 — may be revoked in that
+list) -/
+namespace DemoNoNrp
+
+def sub : SymSub :=
+  { revealed := [("n", "25")], preds := [⟨"a", "GE", 18⟩],
+    cred := { key := 1, attrs := [("n", "25"), ("a", "30")], holder := 7, rev := some (9, 4) },
+    nrp := none, ms := (7, 1), intact := true, uid := 5 }
+
+def cred : Cred :=
+  { issuer := "I", subject := [("N", .str "25"), ("a", .bool true)], proofOk := true,
+    verificationMethod := "cd", schemaId := "s", credDefId := "cd", revRegId := some "rr",
+    timestamp := some 10, sub := sub }
+
+def ctx : Ctx :=
+  { schemas := [("s", { name := "nm", version := "1", issuerId := "I", attrNames := ["N", "A"] })],
+    credDefs := [("cd", { issuerId := "I", key := 1, revocable := true })],
+    revRegDefs := some [("rr", { regKey := 9 })],
+    lists := some [{ regId := some "rr", ts := some 10, acc := some 3 }], override := none }
+
+def req : Request :=
+  { nonce := "1",
+    attrs := [("r1", { name := some "n", names := none, restrictions := none, nonRevoked := none })],
+    preds := [("p1", { name := "a", ty := "GE", value := 18, restrictions := none,
+                       nonRevoked := none })],
+    nonRevoked := some ⟨some 5, some 20⟩ }
+
+def pres : Presentation :=
+  { validateOk := true, creds := [cred], presProofOk := true,
+    agg := { nonce := "1", bound := [(5, false)], intact := true } }
+
+end DemoNoNrp
+
+/- F4 witness: as `DemoNoNrp`, but the presentation names neither registry nor timestamp -/
+namespace DemoStripRegId
+
+def cred : Cred := { DemoNoNrp.cred with revRegId := none, timestamp := none }
+
+def pres : Presentation := { DemoNoNrp.pres with creds := [cred] }
+
+end DemoStripRegId
+
+/- honest revocable presentation: non-revocation part for the accumulator of the named list -/
+namespace DemoNrp
+
+def sub : SymSub :=
+  { DemoNoNrp.sub with nrp := some { regKey := 9, idx := 4, acc := 3, witOk := true } }
+
+def cred : Cred := { DemoNoNrp.cred with sub := sub }
+
+def pres : Presentation :=
+  { DemoNoNrp.pres with creds := [cred], agg := { nonce := "1", bound := [(5, true)], intact := true } }
+
+end DemoNrp
 
 end AnonModel.VerifierW3C
